@@ -40,6 +40,9 @@ pub enum CapMode {
     Tight,
     /// capacity 2^40: nothing is ever evicted
     Roomy,
+    /// sharded: total capacity 2 * shards + 1, which the shards do not divide: each directory holds
+    /// ceil(total / shards) = 3 files before anything may be evicted from it
+    Odd,
 }
 
 #[derive(Clone, Debug)]
@@ -65,12 +68,14 @@ impl Config {
         match self.cap {
             CapMode::Tight => 2,
             CapMode::Roomy => 1 << 40,
+            CapMode::Odd => (2 * self.nshards() + 1).div_ceil(self.nshards()),
         }
     }
     fn total_capacity(&self) -> usize {
         match self.cap {
             CapMode::Tight => 2 * self.nshards(),
             CapMode::Roomy => 1 << 40,
+            CapMode::Odd => 2 * self.nshards() + 1,
         }
     }
     fn keys(&self) -> Vec<K> {
@@ -704,7 +709,11 @@ fn parse_cfg(v: &Value) -> Config {
     };
     Config {
         front,
-        cap: if v["cap"].as_str().unwrap() == "Tight" { CapMode::Tight } else { CapMode::Roomy },
+        cap: match v["cap"].as_str().unwrap() {
+            "Tight" => CapMode::Tight,
+            "Odd" => CapMode::Odd,
+            _ => CapMode::Roomy,
+        },
         handles: v["handles"].as_u64().unwrap() as usize,
         nkeys: v["nkeys"].as_u64().unwrap() as usize,
     }
@@ -852,6 +861,10 @@ pub fn configs(tier: Tier) -> Vec<(Config, usize)> {
     } else {
         vec![FrontKind::Plain, FrontKind::Sharded(2), FrontKind::Sharded(3), FrontKind::Sharded(8), FrontKind::Stack, FrontKind::StackChecked]
     };
+    // total capacities that the shard count does not divide
+    for front in [FrontKind::Sharded(3), FrontKind::Sharded(4)] {
+        v.push((Config { front, cap: CapMode::Odd, handles: 1, nkeys: 4 }, if q { 4 } else { 6 }));
+    }
     for front in fronts {
         for cap in [CapMode::Tight, CapMode::Roomy] {
             if q {
@@ -874,7 +887,8 @@ pub fn run(tier: Tier, shard: Shard, rep: &mut Report) {
         with and without the library's byte-equality checker, under which disagreeing copies must make the lookup fail and change nothing); \
         keys with the same shard pair, the swapped pair, and one whose secondary image equals its primary (fix-up); alphabet per handle \
         {set k A|B, put k C, get k, touch k, (stacked) ensure k D} x environment answers {trigger fires / does not, random other shard \
-        in {0, 1, n-1}}; capacities 'tight' (2 per directory: evictions all the time) and 'roomy' (2^40). States are deduplicated on a \
+        in {0, 1, n-1}}; capacities 'tight' (2 per directory: evictions all the time), 'roomy' (2^40) and 'odd' (2 x shards + 1 on 3 and 4 \
+        shards: a total the shard count does not divide; each directory holds ceil(total/shards) files). States are deduplicated on a \
         canonical key (per directory: name, value, mtime rank with ties, read mark; per handle: load estimates) inside each worker; \
         every step is checked against a map model in which an entry may vanish only as a Second Chance victim of a maintenance whose \
         opendir and unlinks are in the call trace (decided by brute force over tie orders), plus: no key in two directories or outside \
